@@ -7,6 +7,7 @@ import Nstd.Path.FsCreateOk
 import Nstd.Path.FsRoundtrip
 import Nstd.Path.FsWf
 import Nstd.Path.FsList
+import Nstd.Path.FsSucc
 /-
   Property C19, file-system part: theorems about the algorithms of File.cpp / Directory.cpp
   (Nstd/Path/FsLib.lean) over the ASSUMED POSIX semantics of Nstd/Path/Fs.lean, for all worlds
@@ -67,6 +68,35 @@ theorem rename_bytes_exact (fs : Fs) (frm to : Bytes) (fie : Bool) (hwf : WF fs)
       (pt ≠ pf → (fileRename fs frm to fie).1.get pf = none) ∧
       (∀ q, q ≠ pt → q ≠ pf → (fileRename fs frm to fie).1.get q = fs.get q) :=
   fileRename_exact fs frm to fie hwf pf e hsrc he h
+
+/-- … and these calls do succeed (the "reports success" hypotheses above are not vacuous): File::copy of a
+    regular file, without a transfer fault, onto a path that is missing below an existing directory (any
+    failIfExists) or — failIfExists = false — onto another existing file returns true. -/
+theorem copy_succeeds (fs : Fs) (src dst : Bytes) (fie : Bool) (ps : CPath) (d : Bytes)
+    (hsrc : resolve fs src true = .found ps (.file d))
+    (hdst : (∃ pa n, resolve fs dst (!fie) = .missing pa n) ∨
+            (fie = false ∧ ∃ p d0, resolve fs dst true = .found p (.file d0) ∧ p ≠ ps)) :
+    (fileCopy fs src dst fie .none).2.1 = true :=
+  fileCopy_succeeds fs src dst fie ps d hsrc hdst
+
+/-- File::rename of a file or symbolic link onto a path that is missing below an existing directory returns
+    true, with and without failIfExists (world with the invariant of all histories). -/
+theorem rename_succeeds (fs : Fs) (hinv : WF fs ∧ fs.get cwd = some .dir) (frm to : Bytes) (fie : Bool)
+    (pf : CPath) (e : Entry) (hsrc : resolve fs frm false = .found pf e) (he : e ≠ .dir) (pa : CPath) (n : Name)
+    (hto : resolve fs to false = .missing pa n) : (fileRename fs frm to fie).2 = true :=
+  fileRename_succeeds fs hinv frm to fie pf e hsrc he pa n hto
+
+/-- A failed operation leaves the tree unchanged: File::open and File::rename that report failure leave
+    every entry as it was; so does a failed File::copy without an injected transfer fault — in particular
+    copying a file onto itself is refused and the file keeps its bytes.  (With an injected transfer fault the
+    destination, which open(O_TRUNC) has emptied already, is removed: `failed_op_leaves_no_new_file`.) -/
+theorem failed_op_leaves_tree_unchanged (fs : Fs) :
+    (∀ path flags, (fileOpen fs path flags).2 = none → (fileOpen fs path flags).1 = fs) ∧
+    (∀ frm to fie, (fileRename fs frm to fie).2 = false → ∀ q, (fileRename fs frm to fie).1.get q = fs.get q) ∧
+    (∀ src dst fie, (fileCopy fs src dst fie .none).2.1 = false → (fileCopy fs src dst fie .none).1 = fs) :=
+  ⟨fun p f h => fileOpen_failed_same fs p f h,
+   fun a b f h => fileRename_failed_same fs a b f h,
+   fun a b f h => fileCopy_failed_same fs a b f h⟩
 
 /-- Directory::create returns true exactly when the directory exists afterwards — for every world,
     every path string and every injected mkdir fault. -/
